@@ -307,6 +307,14 @@ def conventional_plus(r, features=None, file_shapes=False):
         num = max([f.number for f in mpb.field] + [0]) + 1
         apigen.Msg(None, mpb, "").field(name, num, typ, **kw)
 
+    def rpc_of(req_pb):
+        for f in api.files:
+            for sv in f.proto.service:
+                for m in sv.method:
+                    if m.input_type == f".{pkgname}.{req_pb.name}":
+                        return f"{pkgname}.{sv.name}.{m.name}"
+        return None
+
     if r.random() < 0.7 and reqs:
         # recursive tree with a nested, mutually recursive part and a nested enum
         t = main.message("Tree")
@@ -353,13 +361,6 @@ def conventional_plus(r, features=None, file_shapes=False):
         # target files of special shapes: (a) only top-level enums, one of them the type of a field of a request in
         # another file; (b) only messages, used by one request; (c) only a service, whose types live in the main file.
         # Depending on the listed RPCs each of them is kept with a single kind of content, or becomes empty and vanishes.
-        def rpc_of(req_pb):
-            for f in api.files:
-                for sv in f.proto.service:
-                    for m in sv.method:
-                        if m.input_type == f".{pkgname}.{req_pb.name}":
-                            return f"{pkgname}.{sv.name}.{m.name}"
-            return None
         hints = []
         enums = File(f"{api.dir}/enums.proto", pkgname)
         grade = enums.enum("Grade", ["GRADE_UNSPECIFIED", "GRADE_LOW", "GRADE_HIGH"])
@@ -383,8 +384,13 @@ def conventional_plus(r, features=None, file_shapes=False):
             api.files.insert(1, svcf)
             hints.append([f"{pkgname}.Pinger.Ping"])
             hints.append([h[0] for h in hints[:2] if h[0]])
-        api.info["c16_subsets"] = [h for h in hints if h and all(h)]
+        api.info["c16_subsets"] = api.info.get("c16_subsets", []) + [h for h in hints if h and all(h)]
         knobs.add("file_shapes")
+    if r.random() < 0.5 and reqs:
+        # a chain of enclosing closure of depth 2 or 3, in either declaration order
+        add_enclosing_chain(main, pkgname, reqs[len(reqs) // 2], r.choice([2, 3]), r.random() < 0.5, tag="R")
+        knobs.add("enclosing_chain")
+        api.info.setdefault("c16_subsets", []).append([rpc_of(reqs[len(reqs) // 2])])
     if r.random() < 0.5:
         # a third target file nothing refers to: it disappears under selective generation
         extra = File(f"{api.dir}/extra.proto", pkgname, deps=list(apigen.STD_DEPS))
@@ -452,6 +458,48 @@ def witness_api():
     s = f.service("Library", host="library.example.com")
     s.rpc("GetThing", greq.fqn, thing.fqn, http=("get", "/v1/{name=things/*}"))
     s.rpc("PutOuter", oreq.fqn, outer.fqn, http=("post", "/v1/outer"), body="*")
+    return apigen.request([f])
+
+
+def add_enclosing_chain(file, pkg, user_msg, depth, reverse, tag=""):
+    """A chain that only the enclosing-closure loop of API.build can follow: [user_msg] names the nested enum
+    L1.Kind; the top-level L1 (reached only as the encloser of Kind) has a field of the nested type L2.Slot; the
+    top-level L2 (reached only as the encloser of Slot) has a field of L3.Slot; ... With [reverse] the messages are
+    declared last-link first, so that every sweep of the loop can add only one of them."""
+    names = [f"Link{tag}{i}" for i in range(1, depth + 1)]
+    order = list(reversed(names)) if reverse else list(names)
+    msgs = {n: file.message(n) for n in order}
+    inner = {}
+    for n in names:
+        slot = msgs[n].nested("Slot")
+        slot.field("pos", 1, "int32")
+        inner[n] = slot.fqn
+    kind = msgs[names[0]].enum("Kind", ["KIND_UNSPECIFIED", "KIND_A", "KIND_B"])
+    for i, n in enumerate(names):
+        msgs[n].field("label", 1, "string")
+        if i + 1 < len(names):
+            msgs[n].field("next_slot", 2, inner[names[i + 1]])
+    num = max([f.number for f in user_msg.field] + [0]) + 1
+    apigen.Msg(None, user_msg, "").field("link_kind", num, ("enum", kind))
+    return [m.fqn.lstrip(".") for m in msgs.values()]
+
+
+def chain_api(depth=3, reverse=True):
+    """Minimal API for the enclosing-closure chain (seeded change C16-c): GetFoo keeps Link1..LinkN only through the loop."""
+    pkg = "google.example.library.v1"
+    f = File("google/example/library/v1/library.proto", pkg, deps=list(apigen.STD_DEPS))
+    foo = f.message("Foo")
+    foo.field("name", 1, "string")
+    greq = f.message("GetFooRequest")
+    greq.field("name", 1, "string")
+    links = add_enclosing_chain(f, pkg, greq.proto, depth, reverse)
+    preq = f.message("PutAllRequest")
+    for i, l in enumerate(links, 1):
+        preq.field(f"l{i}", i, "." + l)
+    f.message("Unrelated").field("x", 1, "string")
+    s = f.service("Library", host="library.example.com")
+    s.rpc("GetFoo", greq.fqn, foo.fqn, http=("get", "/v1/{name=foos/*}"))
+    s.rpc("PutAll", preq.fqn, foo.fqn, http=("post", "/v1/all"), body="*")
     return apigen.request([f])
 
 
